@@ -97,6 +97,10 @@ def main(p):
     d = isotopic_distribution(dict(f), min_abundance_threshold=th, use_neutron_count=p["use_n"], output_masses_for_neutron_offset=p["out_m"],
                               distribution_abundance=A, is_abundance_sum=p["is_sum"], neutron_mass=nm)
     bad = []
+    if not p["use_n"] or not p["out_m"]:
+        ref = isotopic_distribution(dict(comp), min_abundance_threshold=0.0, use_neutron_count=p["use_n"], distribution_abundance=1.0)
+        keep = sum(1 for _, rel in ref if rel >= th)
+        if keep != len(d): bad.append(f"{len(d)} peaks returned, but {keep} peaks of the unpruned pattern have relative abundance >= threshold {th}")
     if d:
         ms = [x for x, _ in d]; ab = [y for _, y in d]
         if ms != sorted(ms): bad.append("not sorted by mass")
